@@ -14,10 +14,13 @@ pub mod c06;
 pub mod c07;
 pub mod c08;
 pub mod c09;
+pub mod c10;
+pub mod c11;
+pub mod c12;
 pub mod c15;
 pub mod c16;
 
-pub const ALL: &[&str] = &["C01", "C02", "C03", "C04", "C05", "C06", "C07", "C08", "C09", "C15", "C16"];
+pub const ALL: &[&str] = &["C01", "C02", "C03", "C04", "C05", "C06", "C07", "C08", "C09", "C10", "C11", "C12", "C15", "C16"];
 
 pub fn run(ctx: &Ctx) -> i32 {
     match ctx.prop.as_str() {
@@ -30,6 +33,9 @@ pub fn run(ctx: &Ctx) -> i32 {
         "C07" => c07::run(ctx),
         "C08" => c08::run(ctx),
         "C09" => c09::run(ctx),
+        "C10" => c10::run(ctx),
+        "C11" => c11::run(ctx),
+        "C12" => c12::run(ctx),
         "C15" => c15::run(ctx),
         "C16" => c16::run(ctx),
         other => {
@@ -50,6 +56,9 @@ pub fn replay_case(prop: &str, suite: &str, case: &Value) -> Option<Verdict> {
         "C07" => c07::replay(suite, case),
         "C08" => c08::replay(suite, case),
         "C09" => c09::replay(suite, case),
+        "C10" => c10::replay(suite, case),
+        "C11" => c11::replay(suite, case),
+        "C12" => c12::replay(suite, case),
         "C15" => c15::replay(suite, case),
         "C16" => c16::replay(suite, case),
         _ => None,
